@@ -1,12 +1,12 @@
 package main
 
 import (
-	"regexp/syntax"
-	"unicode/utf8"
 	"fmt"
 	"go/constant"
 	"go/types"
+	"regexp/syntax"
 	"strings"
+	"unicode/utf8"
 
 	"golang.org/x/tools/go/ssa"
 )
@@ -314,7 +314,7 @@ func ruleConstIndexGuarded(c *Ctx) {
 	R.Rule("R-const-index-guarded", "E3 must-facts + length arithmetic", "constant indexes and slice bounds on strings/slices in the server's parsing and command handling are within the length established by guards on the same value", 12)
 	ruleRegexpCallbackShapes(c)
 	exempt := map[string]string{
-		"(*parser).readByte/parser.s": "guarded through peekByte's ok result (len(p.s) != 0 inside peekByte)",
+		"(*parser).readByte/parser.s":   "guarded through peekByte's ok result (len(p.s) != 0 inside peekByte)",
 		"(*parser).expectByte/parser.s": "guarded by the len(p.s) == 0 test of the same function",
 		"decodeUTF8AddrXtext$1/param0":  "the callback only receives matches of eUOrDCharRe: one octet (handled first) or \\x{H+} with at least 5 octets — checked against the pattern by ruleRegexpCallbackShapes",
 	}
